@@ -233,6 +233,7 @@ pub open spec fn ret<T>(res: Result<T, XlsError>, spec: Option<T>) -> bool {
 #[verifier::external_body] fn parse_format(r: &mut Record<'_>, encoding: &XlsEncoding) -> (res: Result<(u16, CellFormat), XlsError>) { unimplemented!() }
 #[verifier::external_body] fn parse_formula(rgce: &[u8], sheets: &[String], names: &[(String, String)], xtis: &[Xti], encoding: &XlsEncoding) -> (res: Result<String, XlsError>) { unimplemented!() }
 #[verifier::external_body] fn parse_formula_value(r: &[u8]) -> (res: Result<Option<Data>, XlsError>) { unimplemented!() }
+#[verifier::external_body] pub fn format_excel_f64(value: f64, format: Option<&CellFormat>, is_1904: bool) -> (d: Data) { unimplemented!() }
 #[verifier::external_body] pub fn builtin_format_by_code(code: u16) -> (r: CellFormat) { unimplemented!() }
 impl<T: CellType> Cell<T> {
     #[verifier::external_body] pub fn new(position: (u32, u32), value: T) -> (c: Cell<T>) { unimplemented!() }
